@@ -188,7 +188,7 @@ class Check:
         return os.path.join(dst, family)
 
     def tlc(self, family, module, cfg=None, workers=None, env=None, timeout=1800, simulate=None, depth=None,
-            dfs=False, extra=None, heap="12g", count=True, coverage=False, stack=None, edges_out=None):
+            dfs=False, extra=None, heap="12g", count=True, coverage=False, stack=None, edges_out=None, ok_timeout=False):
         """Run TLC on specs/<family>/<module>.tla with <cfg> (default <module>.cfg) in a scratch copy."""
         with self._lock:
             d = self._specdir(family)
@@ -251,7 +251,7 @@ class Check:
         p.returncode = pr.returncode
         res = TLCResult(p.stdout, p.returncode, wall)
         res.edges = nedges
-        if p.returncode == 124:
+        if p.returncode == 124 and not ok_timeout:
             raise Infra("TLC timed out after %ss on %s/%s" % (timeout, family, module))
         if "java.lang.OutOfMemoryError" in p.stdout or "StackOverflowError" in p.stdout:
             raise Infra("TLC resource failure on %s/%s:\n%s" % (family, module, p.stdout[-2000:]))
